@@ -492,12 +492,13 @@ theorem remapSpan_eq (s e : Int) (rev : Bool) (m : FM) :
         let mapLength := lo + ls.length
         let zlo := max 0 s
         let zhi := min mapLength e
-        let first : Int := (bisectRight (offsets m) zlo : Int) - 1
-        if first < 0 then .error .valueError else
-        let firstN := first.toNat
-        let last : Int := (bisectLeft ((offsets m).drop firstN) zhi + firstN : Nat) - 1
-        let result := (m.spans.take (last + 1).toNat).drop firstN
         let trimmed : Except FErr (List FSp) :=
+          if zlo > zhi then .ok [] else
+          let first : Int := (bisectRight (offsets m) zlo : Int) - 1
+          if first < 0 then .error .valueError else
+          let firstN := first.toNat
+          let last : Int := (bisectLeft ((offsets m).drop firstN) zhi + firstN : Nat) - 1
+          let result := (m.spans.take (last + 1).toNat).drop firstN
           match result with
           | [] => .ok []
           | _ => trimBoth result
@@ -506,8 +507,8 @@ theorem remapSpan_eq (s e : Int) (rev : Bool) (m : FM) :
         match trimmed with
         | .error er => .error er
         | .ok res =>
-          let res := if s < 0 then FSp.lost (-s) :: res else res
-          let res := if e > mapLength then res ++ [FSp.lost (e - mapLength)] else res
+          let res := if s < 0 then FSp.lost (min e 0 - s) :: res else res
+          let res := if e > mapLength then res ++ [FSp.lost (e - max s mapLength)] else res
           .ok (if rev then (res.map FSp.reversed).reverse else res)
       | _, _ => .error .indexError := by
   rfl
@@ -626,12 +627,13 @@ theorem remapSpan_core (s e : Int) (rev : Bool) (m : FM) :
     remapSpan s e rev m =
       match (offsets m).getLast?, m.spans.getLast? with
       | some lo, some ls =>
-        if ((bisectRight (offsets m) (max 0 s) : Nat) : Int) - 1 < 0 then .error .valueError else
-        match remapCore m.spans (max 0 s) (min (lo + ls.length) e) with
+        match (if max 0 s > min (lo + ls.length) e then (Except.ok [] : Except FErr (List FSp)) else
+               if ((bisectRight (offsets m) (max 0 s) : Nat) : Int) - 1 < 0 then .error .valueError else
+               remapCore m.spans (max 0 s) (min (lo + ls.length) e)) with
         | .error er => .error er
         | .ok res =>
-          let res := if s < 0 then FSp.lost (-s) :: res else res
-          let res := if e > lo + ls.length then res ++ [FSp.lost (e - (lo + ls.length))] else res
+          let res := if s < 0 then FSp.lost (min e 0 - s) :: res else res
+          let res := if e > lo + ls.length then res ++ [FSp.lost (e - max s (lo + ls.length))] else res
           .ok (if rev then (res.map FSp.reversed).reverse else res)
       | _, _ => .error .indexError := by
   rfl
@@ -808,29 +810,72 @@ theorem getLast_facts (sp : List FSp) (hne : sp ≠ []) :
 /-- `Span(s, e, rev).remap_with(m)`: position by position, the result is `m`'s cover looked up at
     the span's positions (lost where the span pokes outside `[0, len m)`) -/
 theorem remapSpan_spec (m : FM) (hN : NonNeg m) (hne : m.spans ≠ []) (s e : Int) (rv : Bool)
-    (h1 : s ≤ e) (h2 : 0 ≤ e) (h3 : s ≤ len m) :
+    (h1 : s ≤ e) :
     ∃ parts, remapSpan s e rv m = .ok parts ∧
       coverL parts = (coverSp (.span s e rv)).map (compose (cover m)) := by
   obtain ⟨lo, ls, hlo, hls, hL⟩ := getLast_facts m.spans hne
   rw [remapSpan_core]
   have hlo' : (offsets m).getLast? = some lo := hlo
   simp only [hlo', hls]
-  obtain ⟨b1, _, _, _⟩ := bisectRight_spec m.spans hN 0 (max 0 s) (by omega) hne
-  have b1' : 1 ≤ bisectRight (offsets m) (max 0 s) := b1
-  rw [if_neg (by omega), hL]
+  rw [hL]
   rw [← len_eq_lenL] at hL ⊢
   have hL0 : 0 ≤ len m := lenL_nonneg hN
   have hLL : len m = lenL m.spans := rfl
-  obtain ⟨core, hc, hcov⟩ := remapCore_spec m.spans hN hne (max 0 s) (min (len m) e) (by omega) (by omega) (by omega)
-  rw [hc]
-  simp only []
-  refine ⟨_, rfl, ?_⟩
   have hlen : ((cover m).length : Int) = len m := coverL_length hN
-  rw [← cover_eq_coverL] at hcov
-  rw [← irange_lookup _ _ _ (by omega) (by omega) (by omega)] at hcov
-  -- cover of the padded result
-  have hres : coverL (if e > len m then (if s < 0 then FSp.lost (-s) :: core else core) ++ [FSp.lost (e - len m)]
-        else if s < 0 then FSp.lost (-s) :: core else core) = irange s e (lookup (cover m)) := by
+  have hcomp : (fun j => compose (cover m) (some j)) = lookup (cover m) := rfl
+  -- whatever the core gives, once padded it covers `irange s e (lookup (cover m))`
+  have hfin : ∀ res : List FSp,
+      coverL (if e > len m then (if s < 0 then FSp.lost (min e 0 - s) :: res else res) ++ [FSp.lost (e - max s (len m))]
+        else if s < 0 then FSp.lost (min e 0 - s) :: res else res) = irange s e (lookup (cover m)) →
+      ∃ parts, (Except.ok (if rv then
+          ((if e > len m then (if s < 0 then FSp.lost (min e 0 - s) :: res else res) ++ [FSp.lost (e - max s (len m))]
+            else if s < 0 then FSp.lost (min e 0 - s) :: res else res).map FSp.reversed).reverse
+          else (if e > len m then (if s < 0 then FSp.lost (min e 0 - s) :: res else res) ++ [FSp.lost (e - max s (len m))]
+            else if s < 0 then FSp.lost (min e 0 - s) :: res else res)) : Except FErr (List FSp)) = .ok parts ∧
+        coverL parts = (coverSp (.span s e rv)).map (compose (cover m)) := by
+    intro res hres
+    refine ⟨_, rfl, ?_⟩
+    cases rv with
+    | false =>
+      simp only [Bool.false_eq_true, if_false]
+      rw [hres, coverSp_span_irange]
+      simp only [Bool.false_eq_true, if_false, irange_map, hcomp]
+    | true =>
+      simp only [if_true]
+      rw [coverL_map_reversed_reverse, hres, coverSp_span_irange]
+      simp only [if_true, List.map_reverse, irange_map, hcomp]
+  by_cases hout : max 0 s > min (len m) e
+  · -- the span lies entirely outside the map: only lost padding, of the span's own length
+    rw [if_pos hout]
+    simp only []
+    apply hfin
+    rw [irange_const_none s e _ (by
+      intro j hj hj2
+      simp only [lookup]
+      by_cases hj0 : j < 0
+      · rw [if_pos hj0]
+      · rw [if_neg hj0, List.getElem?_eq_none (by omega)]; rfl)]
+    by_cases ha : e > len m <;> by_cases hb : s < 0 <;>
+      simp only [ha, hb, if_true, if_false, coverL_append, coverL_cons, coverL_nil, coverSp, List.append_nil]
+    · exfalso; omega
+    · have e1 : (e - max s (len m)).toNat = (e - s).toNat := by omega
+      rw [e1]; simp
+    · have e1 : (min e 0 - s).toNat = (e - s).toNat := by omega
+      rw [e1]
+    · have e1 : (e - s).toNat = 0 := by omega
+      rw [e1]; simp
+  · rw [if_neg hout]
+    have h2 : 0 ≤ e := by omega
+    have h3 : s ≤ len m := by omega
+    obtain ⟨b1, _, _, _⟩ := bisectRight_spec m.spans hN 0 (max 0 s) (by omega) hne
+    have b1' : 1 ≤ bisectRight (offsets m) (max 0 s) := b1
+    rw [if_neg (by omega)]
+    obtain ⟨core, hc, hcov⟩ := remapCore_spec m.spans hN hne (max 0 s) (min (len m) e) (by omega) (by omega) (by omega)
+    rw [hc]
+    simp only []
+    apply hfin
+    rw [← cover_eq_coverL] at hcov
+    rw [← irange_lookup _ _ _ (by omega) (by omega) (by omega)] at hcov
     rw [irange_split s (max 0 s) e _ (by omega) (by omega), irange_split (max 0 s) (min (len m) e) e _ (by omega) (by omega)]
     rw [irange_const_none s (max 0 s) _ (by intro j _ hj; simp only [lookup]; rw [if_pos (by omega)])]
     rw [irange_const_none (min (len m) e) e _ (by
@@ -838,35 +883,26 @@ theorem remapSpan_spec (m : FM) (hN : NonNeg m) (hne : m.spans ≠ []) (s e : In
     rw [← hcov]
     by_cases ha : e > len m <;> by_cases hb : s < 0 <;>
       simp only [ha, hb, if_true, if_false, coverL_append, coverL_cons, coverL_nil, coverSp, List.append_nil]
-    · have e1 : (max 0 s - s).toNat = (-s).toNat := by omega
-      have e2 : (e - min (len m) e).toNat = (e - len m).toNat := by omega
+    · have e1 : (max 0 s - s).toNat = (min e 0 - s).toNat := by omega
+      have e2 : (e - min (len m) e).toNat = (e - max s (len m)).toNat := by omega
       rw [e1, e2]; simp only [List.append_assoc]
     · have e1 : (max 0 s - s).toNat = 0 := by omega
-      have e2 : (e - min (len m) e).toNat = (e - len m).toNat := by omega
+      have e2 : (e - min (len m) e).toNat = (e - max s (len m)).toNat := by omega
       rw [e1, e2]; simp only [List.replicate_zero, List.nil_append]
-    · have e1 : (max 0 s - s).toNat = (-s).toNat := by omega
+    · have e1 : (max 0 s - s).toNat = (min e 0 - s).toNat := by omega
       have e2 : (e - min (len m) e).toNat = 0 := by omega
       rw [e1, e2]; simp only [List.replicate_zero, List.append_nil]
     · have e1 : (max 0 s - s).toNat = 0 := by omega
       have e2 : (e - min (len m) e).toNat = 0 := by omega
       rw [e1, e2]; simp only [List.replicate_zero, List.nil_append, List.append_nil]
-  have hcomp : (fun j => compose (cover m) (some j)) = lookup (cover m) := rfl
-  cases rv with
-  | false =>
-    simp only [Bool.false_eq_true, if_false]
-    rw [hres, coverSp_span_irange]
-    simp only [Bool.false_eq_true, if_false, irange_map, hcomp]
-  | true =>
-    simp only [if_true]
-    rw [coverL_map_reversed_reverse, hres, coverSp_span_irange]
-    simp only [if_true, List.map_reverse, irange_map, hcomp]
 
 
 /-! ### FeatureMap.__getitem__ -/
 
-/-- an index-map span usable on a map of length `L`: ordered, and overlapping or touching `[0, L]` -/
-def FSp.idxOK (L : Int) : FSp → Prop
-  | .span s e _ => s ≤ e ∧ 0 ≤ e ∧ s ≤ L
+/-- an index-map span usable on a map of length `L`: ordered (`Span.__init__` guarantees it); it may
+    lie anywhere, also entirely outside `[0, L]` -/
+def FSp.idxOK (_L : Int) : FSp → Prop
+  | .span s e _ => s ≤ e
   | .lost _ => True
 instance (L : Int) (x : FSp) : Decidable (x.idxOK L) := by cases x <;> unfold FSp.idxOK <;> infer_instance
 
@@ -889,7 +925,7 @@ theorem getitem_go_spec (m : FM) (hN : NonNeg m) (hne : m.spans ≠ []) : ∀ (l
     obtain ⟨sp, hsp, hc⟩ := getitem_go_spec m hN hne r (fun x hx => h x (List.mem_cons_of_mem _ hx))
     have h0 := h (.span s e rv) List.mem_cons_self
     simp only [FSp.idxOK] at h0
-    obtain ⟨parts, hp, hpc⟩ := remapSpan_spec m hN hne s e rv h0.1 h0.2.1 h0.2.2
+    obtain ⟨parts, hp, hpc⟩ := remapSpan_spec m hN hne s e rv h0
     refine ⟨parts ++ sp, ?_, ?_⟩
     · simp only [getitem.go, hp, hsp]; rfl
     · simp only [coverL_cons, coverL_append, hc, hpc, List.map_append]
@@ -1031,36 +1067,46 @@ theorem remapSpan_within (m : FM) (hw : Within m) (s e : Int) (rv : Bool) (parts
     (h : remapSpan s e rv m = .ok parts) : ∀ x ∈ parts, x.within m.parentLength := by
   rw [remapSpan_core] at h
   split at h
-  · split at h
-    · cases h
-    · split at h
-      · cases h
-      · rename_i lo ls _ _ _ _ res hres
-        have hc := remapCore_within _ _ _ _ _ hw hres
-        simp only [] at h
-        injection h with h
-        have key : ∀ x ∈ (if e > lo + ls.length then (if s < 0 then FSp.lost (-s) :: res else res) ++ [FSp.lost (e - (lo + ls.length))]
-            else if s < 0 then FSp.lost (-s) :: res else res), x.within m.parentLength := by
-          intro x hx
-          split at hx <;> split at hx <;> (try simp only [List.mem_append, List.mem_cons, List.not_mem_nil, or_false] at hx)
-          · rcases hx with (rfl | hx) | rfl
-            · trivial
-            · exact hc x hx
-            · trivial
-          · rcases hx with hx | rfl
-            · exact hc x hx
-            · trivial
-          · rcases hx with rfl | hx
-            · trivial
-            · exact hc x hx
-          · exact hc x hx
-        subst h
+  · rename_i lo ls _ _
+    -- the selected spans (none when the span lies outside the map)
+    generalize hsel : (if max 0 s > min (lo + ls.length) e then (Except.ok [] : Except FErr (List FSp)) else
+        if ((bisectRight (offsets m) (max 0 s) : Nat) : Int) - 1 < 0 then .error .valueError else
+        remapCore m.spans (max 0 s) (min (lo + ls.length) e)) = sel at h
+    cases sel with
+    | error er => cases h
+    | ok res =>
+      have hc : ∀ x ∈ res, x.within m.parentLength := by
+        by_cases c1 : max 0 s > min (lo + ls.length) e
+        · rw [if_pos c1] at hsel; cases hsel; intro x hx; simp at hx
+        · rw [if_neg c1] at hsel
+          by_cases c2 : ((bisectRight (offsets m) (max 0 s) : Nat) : Int) - 1 < 0
+          · rw [if_pos c2] at hsel; cases hsel
+          · rw [if_neg c2] at hsel
+            exact remapCore_within _ _ _ _ _ hw hsel
+      simp only [] at h
+      injection h with h
+      have key : ∀ x ∈ (if e > lo + ls.length then (if s < 0 then FSp.lost (min e 0 - s) :: res else res) ++ [FSp.lost (e - max s (lo + ls.length))]
+          else if s < 0 then FSp.lost (min e 0 - s) :: res else res), x.within m.parentLength := by
         intro x hx
-        split at hx
-        · simp only [List.mem_reverse, List.mem_map] at hx
-          obtain ⟨y, hy, rfl⟩ := hx
-          exact FSp.reversed_within y _ (key y hy)
-        · exact key x hx
+        split at hx <;> split at hx <;> (try simp only [List.mem_append, List.mem_cons, List.not_mem_nil, or_false] at hx)
+        · rcases hx with (rfl | hx) | rfl
+          · trivial
+          · exact hc x hx
+          · trivial
+        · rcases hx with hx | rfl
+          · exact hc x hx
+          · trivial
+        · rcases hx with rfl | hx
+          · trivial
+          · exact hc x hx
+        · exact hc x hx
+      subst h
+      intro x hx
+      split at hx
+      · simp only [List.mem_reverse, List.mem_map] at hx
+        obtain ⟨y, hy, rfl⟩ := hx
+        exact FSp.reversed_within y _ (key y hy)
+      · exact key x hx
   · cases h
 
 theorem getitem_go_within (m : FM) (hw : Within m) : ∀ (l sp : List FSp),
